@@ -270,7 +270,7 @@ OTHER_VALUES = [None, True, 7, 1.5, "not base64 !!", ["a"], {"a": 1}, [], ""]
 
 @st.composite
 def mal_cases(draw):
-    mut = draw(st.sampled_from(["delete", "retype", "retype", "retype", "use-keyops", "bad-base64", "len1mod4", "partial-crt", "coordinate", "coordinate", "oth", "padding"]))
+    mut = draw(st.sampled_from(["delete", "retype", "retype", "retype", "use-keyops", "bad-base64", "len1mod4", "partial-crt", "partial-crt", "coordinate", "coordinate", "oth", "padding"]))
     if mut in ("partial-crt", "oth"):
         key, private = draw(gk.rsa_key(1024, 2048)), True
     elif mut == "coordinate":
@@ -328,7 +328,11 @@ def mal_cases(draw):
         if key["kty"] != "RSA" or not private:
             c["mut"] = "skip"
         else:
-            drop = draw(st.lists(st.sampled_from(["p", "q", "dp", "dq", "qi"]), min_size=1, max_size=4, unique=True))
+            # any proper, non-empty subset of the private members other than {d} alone: some CRT members without the rest,
+            # or CRT members without the private exponent
+            drop = draw(st.lists(st.sampled_from(["p", "q", "dp", "dq", "qi", "d", "d"]), min_size=1, max_size=5, unique=True))
+            if set(drop) == {"p", "q", "dp", "dq", "qi"}:
+                drop = drop[:4]
             for m in drop:
                 del jwk[m]
             c["member"] = ",".join(sorted(drop))
